@@ -28,7 +28,8 @@ Record robs := {
   ro_latest : list oent;    (* the same, latest only *)
   ro_listing : list oent;   (* entities listing, all pages *)
   ro_gets : list gobs;      (* lookups in the dataset, current and point in time *)
-  ro_rels : list rel        (* outgoing and incoming relations of every entity of the pool (sorted) *)
+  ro_rels : list rel;       (* outgoing and incoming relations of every entity of the pool (sorted) *)
+  ro_bad : bool             (* some read of the block failed or panicked (e.g. a change-log entry naming a deleted version) *)
 }.
 
 Inductive cop :=
@@ -132,7 +133,8 @@ Definition reads_agree (st : store) (ds : Z) (r : robs) : bool :=
   oents_eqb (m_full d) (ro_full r)
   && oents_eqb (m_latest d) (ro_latest r)
   && oents_eqb (osort (m_listing d)) (osort (ro_listing r))
-  && forallb (get_agrees st ds) (ro_gets r).
+  && forallb (get_agrees st ds) (ro_gets r)
+  && negb (ro_bad r).
 
 Definition rels_same (a b : robs) : bool := list_eqb rel_eqb (ro_rels a) (ro_rels b).
 
@@ -196,6 +198,7 @@ Definition view_consistent (r : robs) : bool :=
 Definition spec_op_ok (o : cop) : bool :=
   match o with
   | CCompact ds thr crash race order o_fl o_cr o_ra o_rn before after =>
+    negb (ro_bad after) &&
     if o_ra then
       (* a writer raced the compactor: the latest view must still be the last version per entity of the feed *)
       view_consistent after
